@@ -244,3 +244,55 @@ def frames_equal(a, b, float_tol=1e-12):
             bad = np.argwhere(~(x == y)).reshape(-1)[:3].tolist()
             msgs.append(f"column {c} differs at rows {bad}: {x[bad].tolist()} vs {y[bad].tolist()}")
     return msgs
+
+
+def explain_difference(spec, ref, df_a, df_b, vfull, pairs, periods=None, float_tol=1e-12):
+    """Tie-aware comparison of agents' paths in two frames.  pairs: list of (index in a, index
+    in b).  For each pair the first period with a difference is examined: a difference in a
+    STATE column while all earlier rows agree can never be a tie (the law of motion is a
+    function of the earlier row) -> violation; a difference in choices/value is accepted only if
+    the oracle finds both reported choices feasible and tolerance-optimal and the values agree
+    to 1e-9 (tie).  Returns (messages, n_ties)."""
+    T = spec.n_periods
+    periods = range(T) if periods is None else periods
+    msgs, ties = [], 0
+    state_cols = list(spec.states)
+    other_cols = ["value", *spec.choices]
+    for ia, ib in pairs:
+        for t in periods:
+            ra, rb = df_a.loc[(t, ia)], df_b.loc[(t, ib)]
+
+            def differs(c):
+                x, y = float(ra[c]), float(rb[c])
+                if (x == y) or (np.isnan(x) and np.isnan(y)):
+                    return False
+                is_float = c == "value" or spec.variables.get(c, ("disc",))[0] != "disc"
+                return not (is_float and abs(x - y) <= float_tol * max(1.0, abs(x)))
+
+            ds = [c for c in state_cols if differs(c)]
+            if ds:
+                msgs.append(f"agent {ia}/{ib}, period {t}: state columns {ds} differ ({[float(ra[c]) for c in ds]} vs {[float(rb[c]) for c in ds]}) although all earlier rows agree")
+                break
+            do = [c for c in other_cols if differs(c)]
+            if not do:
+                continue
+            # same state, different decision: genuine tie?
+            ok = True
+            if abs(float(ra["value"]) - float(rb["value"])) > 1e-9 * max(1.0, abs(float(ra["value"]))):
+                ok = False
+            else:
+                states = {s_: ra[s_] for s_ in spec.states}
+                V_next = None if t == T - 1 else vfull[t + 1]
+                q, f, amb = ref.q_at(states, t, V_next)
+                qm = np.where(f, q, -np.inf)
+                best = float(qm.max()) if q.shape else float(qm)
+                for r in (ra, rb):
+                    idx, probs = choice_index(spec, ref, r)
+                    if probs or (q.shape and not f[idx]) or not (float(q[idx] if q.shape else q) >= best - 1e-9 * max(1.0, abs(best))):
+                        ok = False
+            if ok:
+                ties += 1
+            else:
+                msgs.append(f"agent {ia}/{ib}, period {t}: columns {do} differ ({[float(ra[c]) for c in do]} vs {[float(rb[c]) for c in do]}) and this is not a tie between equally good choices")
+            break  # after the first difference the paths are not comparable
+    return msgs, ties
